@@ -300,6 +300,23 @@ def run(ctx):
             vsrc = {o.call.name for o in origins(c.body, c.args[2], taint=True) if o.kind == "call"}
             r4.check("pgcat::pool::ConnectionPool::register_parse_to_cache" in vsrc, "insert-value", "the value is the pool cache's rewritten Parse", "the stored Parse does not come from the pool cache")
     r4.check("insert" in seen and "get" in seen, "present", "insert/get sites present", "name map accesses missing: %s" % sorted(seen))
+    # `caching is invisible`: a statement the client prepared - under whatever name, the empty one included - is the client's until it replaces or closes it, on whichever
+    # server connection the next batch lands. With the cache on, every Parse goes through the map (buffer_parse registers it) and every Bind looks its statement up there:
+    # a name that bypasses the map (round 10: the unnamed statement passed through `as it is`) lives on one server connection only - the next batch finds another
+    # client's statement under it, or none
+    for fn, need, what in (("pgcat::client::Client::buffer_parse", "insert", "records the statement in the client's map"),
+                           ("pgcat::client::Client::buffer_bind::{closure#0}", "get", "looks the statement up in the client's map")):
+        b = F.body(fn)
+        if b is None:
+            continue
+        site = [c.block for c in b.calls(HM) if c.name.split("::")[-1] == need and ".prepared_statements" in {p_ for o in origins(b, c.args[0]) if o.kind in ("place", "param") for p_ in o.proj if p_.startswith(".")}]
+        enT, enF = field_bool_edges(b, "prepared_statements_enabled", switches(b))
+        okb = [blk for blk, i, st in b.assigns() if st["lhs"]["l"] == 0 and st["rv"]["k"] == "agg" and st["rv"].get("variant") == "Ok"]
+        wit = b.uncrossed_path([d_ for _, d_ in enT], okb, blocks=site) if enT and site and okb else [0]
+        short = fn.replace("::{closure#0}", "").split("::")[-1]
+        r4.check(bool(enT) and bool(site) and wit is None, "every-statement-through-the-map:" + short, "with the cache on, every successful way through %s %s" % (short, what),
+                 "with the cache on, %s can succeed without having %s (%s): that statement exists only on the server connection the batch happened to run on - in transaction mode the client's next batch "
+                 "runs another client's statement of that name, or fails with `prepared statement does not exist`" % (short, what.replace("records", "recorded").replace("looks", "looked"), wit and wit != [0] and b.describe_path(wit)))
     for fn in ("pgcat::client::Client::buffer_bind::{closure#0}", "pgcat::client::Client::buffer_describe::{closure#0}"):
         b = ctx.body(fn, r4)
         if b:
